@@ -17,16 +17,49 @@ from . import common as C
 
 GEN_FILES = []
 DRIVERS = ["tracker"]
-THEOREMS = []
-CLAIM = {}
-TRUSTED_BASE = []
-ASSUMPTIONS = []
+THEOREMS = ["C16_valid_script", "C16_bounded", "C16_bounded_refuted", "C16_update_total",
+            "C16_update_inverted_panics", "C16_to_lines_total", "C16_line_char_roundtrip", "C16_roundtrip_refuted",
+            "C16_merge_preserves_coverage", "C16_merge_keeps_markers", "C16_equal_keeps", "C16_equal_keeps_refuted",
+            "C16_new_is_authors", "C16_identity_tie_refuted", "C16_identity_marker_refuted", "C16_nonvacuous"]
+CLAIM = {
+    "text": "Machine-checked proof (Coq 8.16.1) over an executable Gallina model of the tracker's bookkeeping "
+            "(transform_attributions, merge_attributions, the line/char conversions) with the diff and the move "
+            "matcher as contract-monitored facts: every output range of update lies inside the new text; update "
+            "cannot panic for ordered priors; attributions_to_line_attributions cannot slice off a char boundary "
+            "for ANY attributions on valid UTF-8; merge preserves the per-byte (author, ts) cover and the zero-length "
+            "markers; bytes of Equal segments keep exactly their cover in the output of update; bytes of Insert "
+            "segments outside move targets belong to the reporting author; line -> char -> line keeps the AI lines "
+            "under the exact side condition wf_lattrs. The full-strength statement is proved false for four input "
+            "classes (moved block with changed whitespace; equal-ts tie; zero-length prior; inverted prior), each a "
+            "listed known finding with a witness whose facts come from a real run.",
+    "design_ref": "DESIGN.md §4 C16",
+    "note": "compute_diffs (imara line diff, tokenizer, token diff) and detect_moves are an oracle: the theorems "
+            "hold for all facts meeting wf_diff / moves_fit, and those contracts are monitored on the real facts of "
+            "every generated pair. C16_identity_keeps_lines and C16_ws_reformat are tested (oracle) but not proved. "
+            "The harness is a debug build (overflow checks on); a release build is not exercised.",
+    "technique": "Coq proof over extracted model + differential correspondence on real diff facts + contract monitors",
+}
+TRUSTED_BASE = [
+    "Coq 8.16.1 kernel (coqc); no axioms (Print Assumptions: closed under the global context)",
+    "extraction: ExtrOcamlBasic only (no Extract Constant); OCaml 4.13.1; coq/Extract/d_tracker.ml",
+    "harness/src/p_c16.rs + vlib/c16.py (case generation, canonicalisation, independent oracle) and the add-only "
+    "hooks verif_facts / verif_transform / verif_merge / verif_sort_for_transform in attribution_tracker.rs",
+    "modelled, not verified: compute_diffs and detect_moves (facts; contracts wf_diff, moves_ok, moves_fit monitored "
+    "on every pair); the cursor variables of transform_attributions (model = order-independent filter, agreement "
+    "checked by the correspondence run); std::str::from_utf8 / is_char_boundary / char::is_whitespace (hand model, "
+    "compared on valid, mutated and random byte strings)",
+]
+ASSUMPTIONS = [
+    "texts are valid UTF-8 (Rust &str)",
+    "the real diff facts satisfy wf_diff and moves_ok (monitored) and, outside class C16-K1, moves_fit",
+    "prior attributions have start <= end (class C16-K4 otherwise) and positions / timestamps below 2^62 in the tests",
+]
 
 HUMAN = "human"
 BIG = 1 << 61
 
-K1 = "C16-K1 moved block whose whitespace changed (move mapping with source length != target length)"
-K2 = "C16-K2 overlapping prior attributions with equal ts and different authors (tie re-sorted by author name)"
+K1 = "C16-K1 moved block whose whitespace changed (move mapping whose source text is not a prefix of its target text)"
+K2 = "C16-K2 two prior attributions with the same range and different (author, ts): merge_attributions re-sorts them by author name (tie winner / overrode change)"
 K3 = "C16-K3 zero-length prior attribution (deletion marker) is dropped by the next update"
 K5 = "C16-K5 whitespace-only reformat that the line-level diff mis-anchors on a repeated (e.g. blank) line: the diff reports a substantive change"
 K4 = "C16-K4 prior attribution with start > end (usize underflow in find_attribution_for_insertion, debug build)"
@@ -350,12 +383,41 @@ def lines_per_line(lattrs):
 
 
 def tie_class(attrs, text_b):
-    """two priors that are candidates of a common line, with equal ts and different authors"""
+    """two priors that are candidates of a common line and have the same range once clipped to the
+    text but different (author, ts): merge_attributions re-sorts such pairs by (author, ts)"""
+    n = len(text_b)
     spans = line_spans(text_b)
-    for i, (a, b, x, t) in enumerate(attrs):
-        for (a2, b2, x2, t2) in attrs[i + 1:]:
-            if t == t2 and x != x2 and any(a < le and b > ls and a2 < le and b2 > ls for (ls, le) in spans):
+    cl = [(a, min(b, n), x, t) for (a, b, x, t) in attrs if a < min(b, n)]
+    for i, (a, b, x, t) in enumerate(cl):
+        for (a2, b2, x2, t2) in cl[i + 1:]:
+            if (a, b) == (a2, b2) and (x, t) != (x2, t2) and any(a < le and b > ls for (ls, le) in spans):
                 return True
+    return False
+
+
+def k1_class(old_b, new_b, segs, moves):
+    """some move mapping whose source bytes are not a prefix of its target bytes
+    (detect_moves pairs lines by TRIMMED content)"""
+    if not moves or not segs or not isinstance(segs[0], list):
+        return False
+    dels, inss, op, np_ = [], [], 0, 0
+    for (o, d) in segs:
+        if o == 0:
+            op += len(d)
+            np_ += len(d)
+        elif o == 1:
+            dels.append(op)
+            op += len(d)
+        else:
+            inss.append(np_)
+            np_ += len(d)
+    for (d, i, s0, s1, t0, t1) in moves:
+        if d >= len(dels) or i >= len(inss):
+            return True
+        src = old_b[dels[d] + s0:dels[d] + s1]
+        tgt = new_b[inss[i] + t0:inss[i] + t1]
+        if src != tgt[:len(src)]:
+            return True
     return False
 
 
@@ -367,7 +429,7 @@ def oracle_update(case, f, findings):
     has_inv = any(a > b for (a, b, _, _) in attrs)
     has_zero = any(a == b for (a, b, _, _) in attrs)
     moves = [tuple(m) for m in f.get("moves", [])]
-    k1 = any((m[3] - m[2]) != (m[5] - m[4]) for m in moves)
+    k1 = k1_class(old_b, new_b, segs, moves)
     if segs and segs[0] in ("panic", "err"):
         findings.append(("compute_diffs / detect_moves " + segs[0], None))
         return
@@ -596,7 +658,7 @@ def run(ctx):
         oracle_update(c, f, findings)
         moves = f.get("moves", [])
         n_moves += 1 if moves else 0
-        k1 = any((m[3] - m[2]) != (m[5] - m[4]) for m in moves)
+        k1 = k1_class(c["old_b"], c["new_b"], segs, [tuple(m) for m in moves])
         n_k1 += k1
         # reformat oracle
         if c["kind"].startswith("reformat") and f.get("lines") and f["lines"][0] != "panic":
@@ -652,8 +714,11 @@ def run(ctx):
                 mon_bad.append(f"{c['id']}: model-side wf_diff={g.get('wf')} moves_ok={g.get('mok')} on the real facts")
             if g.get("mfit") != [1] and not k1:
                 n_fit_bad_outside_k1 += 1
-            if (g.get("msame") == [1]) == k1:
-                mism.append(f"{c['id']}: moves_same_len disagrees with the class predicate K1")
+            if g.get("mfit") == [1] and g.get("ord") == [1]:
+                # instances of C16_update_total / C16_bounded in the extracted model
+                mo = g.get("out")
+                if mo is None or mo[0] == "panic" or any(not (x[0] <= x[1] <= len(c["new_b"])) for x in mo[0]):
+                    mism.append(f"{c['id']}: theorem instance C16_update_total / C16_bounded fails in the extracted model")
         if len(samples) < 4 and nontrivial and len(c["old"]) < 80:
             samples.append({"case": "update", "old": c["old"], "new": c["new"], "attrs": c["attrs"], "author": c["author"],
                             "ts": c["ts"], "impl": a[:600], "model": (model.get(c["id"]) or "")[:400]})
@@ -698,11 +763,18 @@ def run(ctx):
                          C.sx(enc_attrs(at)), C.sx(C.cps(r.pick(["ai_9", HUMAN]))), "100"])
         tcases.append((f"t{i}", body))
     it = C.run_cases(C.VHARNESS, "c16-transform", tcases, shards=C.NCPU)
+    n_tok = 0
     if ctx.model_ok:
         mt = C.run_cases(drv, "c16-transform", tcases)
         for i, b in tcases:
-            if it.get(i) != mt.get(i):
-                mism.append(f"{i} synthetic facts {b[:200]}: impl {str(it.get(i))[:160]} model {str(mt.get(i))[:160]}")
+            m_ = mt.get(i) or ""
+            k_ = m_.rfind(" (mok ")
+            mok = m_[k_:] == " (mok 1)"
+            n_tok += mok
+            # the cursors of transform_attributions presuppose move sources inside their deletion
+            # (moves_ok, monitored on the real facts); compare where that holds
+            if mok and it.get(i) != m_[:k_]:
+                mism.append(f"{i} synthetic facts {b[:200]}: impl {str(it.get(i))[:160]} model {m_[:160]}")
     n_tpanic = sum(1 for v in it.values() if "panic" in v)
 
     # ---------- to_lines on arbitrary attributions; fill
@@ -828,7 +900,8 @@ def run(ctx):
             "cases_with_moves": n_moves,
             "cases_in_K1": n_k1,
             "roundtrip_wf_inputs": f"{n_rt_wf}/{len(rcases)}",
-            "synthetic_panics_agreeing": n_tpanic,
+            "synthetic_fact_sets_with_moves_ok": f"{n_tok}/{len(tcases)}",
+            "synthetic_panics_in_impl": n_tpanic,
             "oracle_failures_in_known_classes": n_known,
             "correspondence_mismatches": len(mism),
         },
